@@ -390,8 +390,12 @@ pub async fn run_path(u: &Universe, prop: &str, h: &Hist, path: &Path, out: &mut
         for p in 1..h.peers {
             if let Some(t) = first_table_diff(&contents[0], &contents[p]) {
                 verdict = format!("differ:{}", t);
+                // references are outside the daily summary: a pull interrupted after the rows of a day are stored and
+                // before their references are asked for is a root cause of its own (known finding), kept apart from
+                // differences that need no interruption
+                let interrupted = if t == "edge" && path.cut.is_some() { " after-interrupted-pull" } else { "" };
                 out.violation(
-                    format!("history={} clause=content-differs table={}", h.name, t),
+                    format!("history={} clause=content-differs table={}{}", h.name, t, interrupted),
                     format!("after quiescence {} and {} hold different {} rows", NAMES[0], NAMES[p], t),
                     replay.clone(),
                 );
